@@ -19,12 +19,34 @@ class C09World(WalletWorld):
     def __init__(self, world):
         WalletWorld.__init__(self, world)
         self.rebuilt = 0
+        self.ambiguous_wt = set()
         if self.network in ('litecoin', 'litecoin_testnet'):
-            # one extended-key prefix for several script families: the library cannot tell them apart on re-import
-            world.sig_env = {'env': 'ambiguous_extended_key_prefix'}
+            # One extended-key prefix for several script families: the library cannot tell them apart on re-import and
+            # takes the first family that matches.  Affected are the witness types whose own extended key does not
+            # come back as that type; the recorded finding applies from the moment such a type is in play.
+            from bitcoinlib.keys import HDKey
+            for wt in ('legacy', 'p2sh-segwit', 'segwit'):
+                try:
+                    x = self.xprv_of_type(wt)
+                    if HDKey.from_wif(x, network=self.network).witness_type != wt:
+                        self.ambiguous_wt.add(wt)
+                except Exception:
+                    self.ambiguous_wt.add(wt)
+            world.log.ev('ambiguous_witness_types', types=sorted(self.ambiguous_wt))
+            for wi in self.wallets:
+                self.touch_wt(wi.wt)
         for wi in self.wallets:
             wi.explicit = set()      # chains that saw an explicit-index request (gaps allowed there)
             wi.accounts = {0}
+
+    def xprv_of_type(self, wt):
+        fam = {'legacy': 'legacy', 'p2sh-segwit': 'p2sh_p2wpkh', 'segwit': 'p2wpkh'}[wt]
+        node = rbip32.RefHDNode.from_seed(b'c09 ambiguity probe seed')
+        return node.ser_private(rcodec.NETWORKS[self.network]['xkeys'][fam][1])
+
+    def touch_wt(self, wt):
+        if wt in self.ambiguous_wt:
+            self.w.sig_env = {'env': 'ambiguous_extended_key_prefix'}
 
     # -- reference expectations ---------------------------------------------------------------------------
     def expect(self, wi, k):
@@ -288,6 +310,7 @@ class C09World(WalletWorld):
         how = ch.pick('mixed_how', ['new_key', 'get_key', 'new_key_change'])
         before = self.listing(wi, h)
         w.op('mixed_' + how, wallet=wi.name, witness_type=wt)
+        self.touch_wt(wt)
         ok, k = self.call(wi, how, lambda: getattr(h, how)(witness_type=wt))
         if not ok:
             return
